@@ -22,11 +22,16 @@ def check_build_A(rep, pa, case):
     from pygamma_agreement.numba_utils import build_A
     cont = gen.build_continuum(pa, case["units"])
     dissim = gen.make_dissim(pa, case["spec"])
-    dis, cands = dissim.valid_alignments(cont)
     I = Inst(cont, dissim)
-    A = build_A(cands, np.array(I.sizes, dtype=np.int32))
-    cs = [[int(v) for v in t] for t in cands]
-    return I, cs, A
+
+    def native():
+        # compiled code fed with the library's own candidate array: run in a forked child (a wrong array can crash the process, which must be
+        # reported as a failing input of this case, not end the check)
+        dis, cands = dissim.valid_alignments(cont)
+        A = build_A(cands, np.array(I.sizes, dtype=np.int32))
+        return [[int(v) for v in t] for t in cands], np.asarray(A).tolist()
+    cs, A = ac.run_forked(120, native)
+    return I, cs, np.asarray(A)
 
 
 def run(rep, tier, seed, pa):
@@ -68,8 +73,8 @@ def run(rep, tier, seed, pa):
             continue
         try:
             I, cs, A = check_build_A(rep, pa, case)
-        except Exception as e:      # a library call that raises on a generated continuum is a failing input, not a harness error
-            rep.violation("does-not-return:" + type(e).__name__, {"units": case["units"], "dissim": case["spec"], "error": repr(e), "call": "valid_alignments / build_A"},
+        except (Exception, ac.Watchdog) as e:      # a library call that raises on a generated continuum is a failing input, not a harness error
+            rep.violation("does-not-return:" + (getattr(e, "name", None) or type(e).__name__), {"units": case["units"], "dissim": case["spec"], "error": repr(e), "call": "valid_alignments / build_A"},
                           "valid_alignments / build_A raised %r" % (e,))
             continue
         lines.append([7] + I.wire() + w_list(cs, w_tuple))
